@@ -270,3 +270,19 @@ func exprType(qs string) parser.ValueType {
 func tieSensitive(qs string) bool {
 	return strings.Contains(qs, "topk") || strings.Contains(qs, "bottomk")
 }
+
+func ctxBackground() context.Context { return context.Background() }
+
+// rawOrderProblem checks that a matrix is sorted by label set (promql.Matrix order).
+func rawOrderProblem(r *promql.Result) string {
+	m, ok := r.Value.(promql.Matrix)
+	if !ok {
+		return ""
+	}
+	for i := 1; i < len(m); i++ {
+		if labels.Compare(m[i-1].Metric, m[i].Metric) > 0 {
+			return "matrix not sorted by label set: " + m[i-1].Metric.String() + " before " + m[i].Metric.String()
+		}
+	}
+	return ""
+}
